@@ -85,7 +85,8 @@ impl TyDesc for String {
 }
 impl Samples for String {
     fn samples() -> Vec<Self> {
-        vec!["".into(), "plain".into(), "quo\"te\\ \n é ✓".into()]
+        // (the last ones look like a number / a boolean: a string all the same)
+        vec!["".into(), "plain".into(), "quo\"te\\ \n é ✓".into(), "7".into(), "true".into(), "1e3".into()]
     }
 }
 impl TyDesc for Uuid {
@@ -400,6 +401,28 @@ struct FlatNum {
 }
 desc_struct!(FlatNum { "own" => u8, false; "fx" => u16, false; "fy" => Option<bool>, false });
 
+/// Path parameters with a flattened part (string members).
+#[derive(Serialize, Deserialize, JsonSchema, Clone, Debug)]
+struct PFlatIn {
+    b: String,
+}
+#[derive(Serialize, Deserialize, JsonSchema, Clone, Debug)]
+struct PFlat {
+    a: String,
+    #[serde(flatten)]
+    inner: PFlatIn,
+}
+desc_struct!(PFlat { "a" => String, false; "b" => String, false });
+impl Samples for PFlat {
+    fn samples() -> Vec<Self> {
+        vec![
+            PFlat { a: "x".into(), inner: PFlatIn { b: "y".into() } },
+            PFlat { a: "7".into(), inner: PFlatIn { b: "007".into() } },
+            PFlat { a: "true".into(), inner: PFlatIn { b: "1e3".into() } },
+        ]
+    }
+}
+
 // untagged enums with structurally overlapping variants
 #[derive(Serialize, Deserialize, JsonSchema, Clone, Debug)]
 #[serde(untagged)]
@@ -656,6 +679,7 @@ ep_path!(p_nz, "/p/nz/{id}", PNz);
 ep_path!(p_i64, "/p/i64/{v}", PI64);
 ep_path!(p_new, "/p/new/{id}", PNew);
 ep_path!(p_bool, "/p/bool/{flag}", PBool);
+ep_path!(p_flat, "/p/flat/{a}/{b}", PFlat);
 
 // query parameters
 ep_query!(q_req, "/q/req", QReq);
@@ -946,6 +970,7 @@ fn build_api() -> (ApiDescription<()>, Vec<Ep>) {
     reg_path!(p_i64, "/p/i64/{v}", PI64);
     reg_path!(p_new, "/p/new/{id}", PNew);
     reg_path!(p_bool, "/p/bool/{flag}", PBool);
+    reg_path!(p_flat, "/p/flat/{a}/{b}", PFlat);
     reg_query!(q_req, "/q/req", QReq);
     reg_query!(q_opt, "/q/opt", QOpt);
     reg_query!(q_dflt, "/q/dflt", QDflt);
@@ -1128,7 +1153,9 @@ fn int_value(x: i128) -> Value {
     }
 }
 
-const WORDS: [&str; 8] = ["a", "zed", "hello world", "x/y", "é✓", "a&b=c", "100%", "q?"];
+// (a string schema admits strings that look like numbers, floats or booleans just as well)
+const WORDS: [&str; 14] =
+    ["a", "zed", "hello world", "x/y", "é✓", "a&b=c", "100%", "q?", "7", "007", "-1", "1e3", "true", "nan"];
 
 /// a value valid for the schema (as far as the document says), `None` when the
 /// schema admits none (`{type: string, enum: [null]}` without nullable).
